@@ -24,3 +24,21 @@ def check(case, ctx):
 
 def sample(case, res):
     return gen.render(case)
+
+
+def _sig_after_internal_error(case, res):
+    """a check-sat that itself failed with the internal error "Equality over non-equal sorts" (arrays over Int and over
+    Real elements with a common index sort in one script) leaves the solver unsat for the following check-sats"""
+    from .. import osmt
+    d = res.detail or {}
+    if d.get("opensmt") != "unsat" or d.get("reference") != "sat":
+        return False
+    r = osmt.run_marked(case, "fast", 10)
+    idx = d.get("cmd_index", 0)
+    for i, c in enumerate(case["cmds"][:idx]):
+        if c[0] == "check-sat" and any("Equality over non-equal sorts" in x for x in (r.resp.get(i) or [])):
+            return True
+    return False
+
+
+SIGNATURES = {"unsat-after-check-sat-failed-with-sort-error": _sig_after_internal_error}
